@@ -209,7 +209,7 @@ pub fn check_c08(ctx: &Ctx) -> i32 {
         &tally,
         Meta {
             level: "model_checking",
-            rule: format!("every history of the C01 set (nV<={nv}, nA<={na}) executed twice on the real muxer, fast start on and off, over {nconf} configuration/metadata-length combinations; plus the scaling family (every video count up to 48 / 120 with three audio cadences, and 70 KB samples); every permutation and alias choice of the builder calls (video, audio, fast start, metadata) x 16 configurations against the canonical order; differential oracle: top-level order per layout, each file dereferences to the submitted bytes (C01 oracle), reader-reduced movies (moov with chunk offsets zeroed) byte-equal; distinct by the pair of output files"),
+            rule: format!("every history of the C01 set (nV<={nv}, nA<={na}) executed twice on the real muxer, fast start on and off, over {nconf} configuration/metadata-length combinations; plus the scaling family (every video count up to 48 / 120 with three audio cadences, and samples of 70 KB up to 2 MiB, 16 MiB in the thorough tier, around every power of two); every permutation and alias choice of the builder calls (video, audio, fast start, metadata) x 16 configurations against the canonical order; differential oracle: top-level order per layout, each file dereferences to the submitted bytes (C01 oracle), reader-reduced movies (moov with chunk offsets zeroed) byte-equal; distinct by the pair of output files"),
             bound: format!("nV<={nv}, nA<={na}; metadata title lengths {title_lens:?}"),
             exhaustive: true,
             assumptions: vec!["the independent reader is trusted".into()],
